@@ -16,6 +16,7 @@ import importlib
 import traceback
 import subprocess
 import collections
+import itertools
 
 from . import env
 from .core import Result, _j
@@ -30,38 +31,27 @@ VERIFY_REPLAYS = 3
 
 
 # ---------------------------------------------------------------------------------------------- workers
-_MOD = None
+def _run_job(args):
+    """explore one chunk in its own fresh interpreter (see mc/worker.py)"""
+    check_id, tier, idx, chunk, hs, tmpdir = args
+    import pickle
 
-
-def _init_worker(check_id):
-    global _MOD
-    env.setup()
-    _MOD = importlib.import_module("mc.checks.%s" % check_id.lower())
-
-
-def _run_chunk(args):
-    idx, chunk, tier = args
-    t0 = time.process_time()  # CPU time of this worker (children such as the CBC solver are not included)
+    job = os.path.join(tmpdir, "job_%d_%s.pickle" % (idx, hs))
+    out = os.path.join(tmpdir, "res_%d_%s.pickle" % (idx, hs))
+    with open(job, "wb") as f:
+        pickle.dump((idx, chunk), f)
+    p = subprocess.run([sys.executable, "-m", "mc.worker", check_id, tier, job, out], cwd=env.VERIF, env=env.child_env(hs), capture_output=True, text=True)
     try:
-        res = _MOD.run_chunk(chunk, tier)
-        if not isinstance(res, Result):
-            raise env.HarnessError("run_chunk must return a Result")
-        return idx, res, None, time.process_time() - t0
-    except BaseException:  # a crash of the harness, not of chempy: chempy exceptions are observations
-        return idx, None, traceback.format_exc(), time.process_time() - t0
-
-
-def _pool(check_id, seedval, n):
-    import multiprocessing as mp
-
-    saved = dict(os.environ)
-    os.environ.update(env.child_env(seedval))
-    try:
-        ctx = mp.get_context("spawn")
-        return ctx.Pool(n, initializer=_init_worker, initargs=(check_id,))
-    finally:
-        os.environ.clear()
-        os.environ.update(saved)
+        with open(out, "rb") as f:
+            payload = pickle.load(f)
+    except Exception:
+        payload = (idx, None, "worker died (exit %s): %s" % (p.returncode, (p.stderr or "")[-1500:]), 0.0)
+    for fn in (job, out):
+        try:
+            os.unlink(fn)
+        except OSError:
+            pass
+    return payload
 
 
 # ---------------------------------------------------------------------------------------------- findings
@@ -96,7 +86,18 @@ def do_replay(pid, path, quiet=False):
     env.setup()
     mod = importlib.import_module("mc.checks.%s" % pid.lower())
     rec = json.load(open(path))
-    got = mod.replay(rec["case"])  # None (holds) or dict(key, what, observed, expected)
+    if rec.get("chunk_replay"):
+        # history-dependent violation: it shows only after the cases explored before it in the same worker process;
+        # the replay re-executes that chunk's whole (deterministic) sequence in this fresh process and looks for it
+        chunk = [c for c in mod.chunks(rec["tier"]) if repr(c) == rec["chunk"]][0]
+        res = mod.run_chunk(chunk, rec["tier"])
+        got = None
+        for v in res.violations:
+            if v["key"] == rec["key"] and json.dumps(v["case"], sort_keys=True, default=repr) == json.dumps(rec["case"], sort_keys=True, default=repr):
+                got = dict(key=v["key"], what=v["what"], observed=v["observed"], expected=v["expected"])
+                break
+    else:
+        got = mod.replay(rec["case"])  # None (holds) or dict(key, what, observed, expected)
     if got is None:
         print("REPLAY %s" % json.dumps(dict(property=pid, reproduced=False)))
         if not quiet:
@@ -164,37 +165,27 @@ def _explore(pid, tier, seed, nworkers, only, t0):
     rnd = random.Random(seed)
     rnd.shuffle(jobs_a)
     rnd.shuffle(jobs_b)
-    na = max(1, min(len(jobs_a), (nworkers + 1) // 2)) if jobs_a else 0
-    nb = max(1, min(len(jobs_b), nworkers - na)) if jobs_b else 0
-    if jobs_a and not jobs_b:
-        na = min(len(jobs_a), nworkers)
-    if jobs_b and not jobs_a:
-        nb = min(len(jobs_b), nworkers)
     results = {}
     errors = []
     chunk_time = 0.0
-    pools = []
+    import concurrent.futures
+    import tempfile
+    import shutil
+
+    tmpdir = tempfile.mkdtemp(prefix="mc_%s_" % pid)
     try:
-        its = []
-        if jobs_a:
-            pa = _pool(pid, hs_a, na)
-            pools.append(pa)
-            its.append(pa.imap_unordered(_run_chunk, jobs_a))
-        if jobs_b:
-            pb = _pool(pid, hs_b, nb)
-            pools.append(pb)
-            its.append(pb.imap_unordered(_run_chunk, jobs_b))
-        for which, it in enumerate(its):
-            for idx, res, err, dt in it:
+        jobs = [(pid, tier, i, c, hs_a, tmpdir) for i, c, _ in jobs_a] + [(pid, tier, i, c, hs_b, tmpdir) for i, c, _ in jobs_b]
+        # interleave the two hash seeds so that both are in flight from the start
+        jobs = [j for pair in itertools.zip_longest(jobs[: len(jobs_a)], jobs[len(jobs_a):]) for j in pair if j is not None]
+        with concurrent.futures.ThreadPoolExecutor(max_workers=max(1, nworkers)) as ex:
+            for idx, res, err, dt in ex.map(_run_job, jobs):
                 chunk_time += dt
                 if err:
                     errors.append((idx, err))
                 else:
                     results.setdefault(idx, []).append(res)
     finally:
-        for p in pools:
-            p.terminate()
-            p.join()
+        shutil.rmtree(tmpdir, ignore_errors=True)
     if errors:
         for idx, err in errors[:3]:
             sys.stderr.write("chunk %r failed inside the harness:\n%s\n" % (chunks[idx], err))
@@ -238,6 +229,7 @@ def _explore(pid, tier, seed, nworkers, only, t0):
 
     lines = []
     unreproduced = 0
+    history_dependent = 0
     written = 0
     seen_new_keys = collections.Counter()
     for v in new:
@@ -254,8 +246,19 @@ def _explore(pid, tier, seed, nworkers, only, t0):
             r1 = _fresh_replay(pid, path, v["hashseed"])
             r2 = _fresh_replay(pid, path, v["hashseed"])
             if r1 != r2 or r1[0] != 1:
-                unreproduced += 1
-                sys.stderr.write("replay of %s not reproducible: %r vs %r\n" % (path, r1, r2))
+                # not reproduced from the single case: does it depend on the cases explored before it (a cache, a shared
+                # default, an aliased container)?  Re-execute its whole chunk, twice, in fresh processes.
+                rec.update(chunk_replay=True, chunk_index=v.get("chunk_index"), chunk=repr(chunks[v["chunk_index"]]) if v.get("chunk_index") is not None else None,
+                           what="[history-dependent: reproduces only after the cases explored before it in its chunk] " + v["what"])
+                with open(path, "w") as f:
+                    json.dump(rec, f, indent=1, sort_keys=True, default=repr)
+                c1 = _fresh_replay(pid, path, v["hashseed"]) if v.get("chunk_index") is not None else (0, "")
+                c2 = _fresh_replay(pid, path, v["hashseed"]) if v.get("chunk_index") is not None else (0, "")
+                if c1 != c2 or c1[0] != 1:
+                    unreproduced += 1
+                    sys.stderr.write("replay of %s not reproducible: case %r vs %r; chunk %r vs %r\n" % (path, r1, r2, c1, c2))
+                else:
+                    history_dependent += 1
         lines.append("VIOLATION property=%s replay=%s" % (pid, path))
         if not os.environ.get("VERIF_QUIET"):
             sys.stderr.write("  [%s] %s\n" % (v["key"], v["what"][:300]))
